@@ -337,7 +337,8 @@ pub fn populate(run: &mut Runner, r: &mut R, t: &mut Tab, n: usize) {
 
 /// C05: populations + query grammar, all autocommit
 fn seg_sql(run: &mut Runner, r: &mut R) {
-    run.reset(default_cfg());
+    let cfg = if r.random_range(0..3) == 0 { rand_cfg(r, true) } else { default_cfg() };
+    run.reset(cfg);
     let nt = r.random_range(1..4);
     let mut tabs: Vec<Tab> = (0..nt).map(|i| { let u = r.random_range(0..4) == 0; rand_table(r, &format!("t{}", i + 1), u) }).collect();
     for t in tabs.iter_mut() {
@@ -345,11 +346,13 @@ fn seg_sql(run: &mut Runner, r: &mut R) {
         let n = r.random_range(0..12);
         populate(run, r, t, n);
     }
+    if r.random_range(0..5) < 2 { run.analyze(); }
     let n = r.random_range(15..35);
     for _ in 0..n {
         if run.hung { return; }
         let c = r.random_range(0..100);
-        if c < 72 {
+        if c < 3 { run.analyze(); }
+        else if c < 72 {
             let s = rand_select(r, &tabs, true);
             run.auto(&Stmt::Select(s));
         } else {
@@ -967,7 +970,7 @@ pub fn rand_cfg(r: &mut R, small_pages_ok: bool) -> axmosdb::DBConfig {
 
 /// C09: histories split at arbitrary points by flush / close / open with arbitrary configuration values
 fn seg_reopen(run: &mut Runner, r: &mut R, stats: &mut serde_json::Value) {
-    let c0 = rand_cfg(r, false);
+    let c0 = rand_cfg(r, true);
     run.reset(c0);
     let u1 = r.random_bool(0.5);
     let mut tabs: Vec<Tab> = vec![rand_table(r, "t1", u1), rand_table(r, "t2", false)];
@@ -1109,7 +1112,8 @@ fn seg_ddl(run: &mut Runner, r: &mut R, stats: &mut serde_json::Value) {
                 3 if will_commit && !live.is_empty() && !in_session => {
                     let i = r.random_range(0..live.len());
                     let name = live[i].def.name.clone();
-                    if exec(run, &Stmt::Drop(name.clone())).is_ok() { dropped.push(name); }
+                    // autocommit: the drop is in effect at once, the old definition must not be used any more
+                    if exec(run, &Stmt::Drop(name.clone())).is_ok() { live.retain(|t| t.def.name != name); dropped.push(name); }
                 }
                 4 => { exec(run, &Stmt::Drop("nosuch".into())); }
                 5 | 6 => {
@@ -1134,7 +1138,7 @@ fn seg_ddl(run: &mut Runner, r: &mut R, stats: &mut serde_json::Value) {
         if in_session {
             if will_commit { if run.commit(1).is_ok() { live.retain(|t| !dropped.contains(&t.def.name)); live.extend(created); } }
             else { if r.random_bool(0.5) { run.rollback(1); } else { run.drop_session(1); } }
-        } else { live.retain(|t| !dropped.contains(&t.def.name)); live.extend(created); }
+        } else { live.extend(created); }
         // other tables are never disturbed; every live table reads back
         run.auto(&Stmt::Select(select_all(&keep)));
         for t in &live { run.auto(&Stmt::Select(select_all(t))); }
